@@ -218,6 +218,16 @@ def run(tier, replay=None):
         # programs with a merge over an unforked producer (C02 finding): the run fails in the
         # merge itself, whatever was injected
         um = ":unforked-merge" if sem[prog].get("weak") and not b["what"].startswith("unforked-merge") else ""
+        if "stuck-running" in b["what"] and s.get("maxjobs"):
+            # a cluster-mode run that came to rest without failing: the failure of a vanished job
+            # is found by operations that run beside the loop (the queue query is a process);
+            # under load the driver has been seen to judge the run at rest too early.  Reported
+            # only if the same schedule comes to rest again, three times out of three, alone
+            again = psrun.run_specs([dict(s, name=s["name"] + "#again%d" % k_, sched={"kind": "script", "script": r["script"]})
+                                     for k_ in range(3)], nproc=3)
+            if not all(a_["states"][0] != "failed" for a_ in again):
+                print("NOTE the run %s came to rest without failing in the batch but fails as it must when repeated alone: not reported" % s["name"])
+                continue
         viols.append({
             "key": "C06:%s:%s:%s:%s%s" % (prog, fk, fv, b["what"].split(":")[0][:60], um),
             "what": "C06 fault %s at %s (program %s): [%s] %s" % (fv, fk, prog, b["job"], b["what"]),
